@@ -94,6 +94,64 @@ def check_operand_protocol(model, col, rule):
     col.check("valueList[i].Reference == ref" in t and "valueList[i] = newValue" in t, rule, f"{IR}::Instruction._ReplaceUsesInList", "replaces every entry whose reference matches", None, IR, helper)
 
 
+def _is_position(cls, func, X, arg, evs, atoms, depth=1):
+    """On this path, does local X hold the position of `arg` in the block's instruction list?"""
+    for e in evs:
+        if e.kind == "loop" and isinstance(e.node, ast.For) and e.val == 1:
+            it, tg = e.node.iter, e.node.target
+            if isinstance(it, ast.Call) and last_attr(it) == "enumerate" and it.args and unparse(it.args[0]).endswith("__instructions") and len(it.args) == 1 \
+                    and isinstance(tg, ast.Tuple) and len(tg.elts) == 2 and all(isinstance(x, ast.Name) for x in tg.elts) and tg.elts[0].id == X:
+                E = tg.elts[1].id
+                if any(atoms.get(k) is True for k in (f"{E} == {arg}", f"{arg} == {E}", f"{E} is {arg}", f"{arg} is {E}")):
+                    return True
+        if e.kind == "stmt" and isinstance(e.node, ast.Assign) and len(e.node.targets) == 1 and isinstance(e.node.targets[0], ast.Name) and e.node.targets[0].id == X:
+            v = e.node.value
+            if isinstance(v, ast.Call) and len(v.args) == 1 and unparse(v.args[0]) == arg and isinstance(v.func, ast.Attribute):
+                if v.func.attr == "index" and unparse(v.func.value).endswith("__instructions"):
+                    return True
+                if depth > 0 and isinstance(v.func.value, ast.Name) and v.func.value.id == func.args.args[0].arg:
+                    r = cls.find_method(v.func.attr) or cls.find_method(mangle(cls.name, v.func.attr))
+                    if r is not None and len(r[1].args.args) == 2:
+                        h = r[1]
+                        p = h.args.args[1].arg
+                        good = 0
+                        for evs2, st2 in paths(h.body):
+                            if st2 != "return":
+                                continue
+                            rv = evs2[-1].node.value
+                            if rv is None or (isinstance(rv, ast.Constant) and rv.value is None):
+                                continue
+                            if not (isinstance(rv, ast.Name) and _is_position(cls, h, rv.id, p, evs2, cond_atoms(evs2), depth - 1)):
+                                return False
+                            good += 1
+                        if good:
+                            return True
+    return False
+
+
+def _previous_ok(bb, gp):
+    """Every value-returning path of GetPreviousInstruction returns instructions[X - 1] where X is the
+    position of the argument in the block and X > 0 holds on the path."""
+    arg = gp.args.args[1].arg
+    found = False
+    for evs, status in paths(gp.body):
+        if status != "return":
+            continue
+        rv = evs[-1].node.value
+        if rv is None or (isinstance(rv, ast.Constant) and rv.value is None):
+            continue
+        if not (isinstance(rv, ast.Subscript) and unparse(rv.value).endswith("__instructions") and isinstance(rv.slice, ast.BinOp) and isinstance(rv.slice.op, ast.Sub)
+                and isinstance(rv.slice.left, ast.Name) and isinstance(rv.slice.right, ast.Constant) and rv.slice.right.value == 1):
+            return False
+        X = rv.slice.left.id
+        atoms = cond_atoms(evs)
+        pos = any(atoms.get(k) is True for k in (f"{X} > 0", f"{X} >= 1", f"0 < {X}", f"1 <= {X}")) or any(atoms.get(k) is False for k in (f"{X} == 0", f"{X} < 1", f"{X} <= 0", f"0 == {X}"))
+        if not pos or not _is_position(bb, gp, X, arg, evs, atoms):
+            return False
+        found = True
+    return found
+
+
 def check_pool_key(model, col, rule):
     fn = model.cls(IR, "Function").own_method("CreateConstant")
     params = [a.arg for a in fn.args.args[1:]]
@@ -382,6 +440,5 @@ def run(model, col, tier):
     prev = find_assign(h, pv)
     col.check(bool(prev) and rtext(prev[0], h_env) == f"{ld}.Parent.GetPreviousInstruction({ld})", "R02.7", f"{LAS}::previous instruction source", "previous = the load's block .GetPreviousInstruction(load)", f"{[unparse(p) for p in prev]}", LAS, h)
     gp = bb.own_method("GetPreviousInstruction")
-    s = unparse(gp)
-    col.check("self.__instructions[index - 1]" in s and "index > 0" in s and "instruction == i" in s, "R02.7", f"{IR}::BasicBlock.GetPreviousInstruction",
+    col.check(_previous_ok(bb, gp), "R02.7", f"{IR}::BasicBlock.GetPreviousInstruction",
               "the directly preceding instruction of the same block (index - 1), None for the first", "GetPreviousInstruction does not return the directly preceding instruction of the same block", IR, gp)
